@@ -191,3 +191,303 @@ Proof.
     as [w' [E [L [O _]]]].
   exists w'. destruct usars as [|r rs]; [congruence|]. cbn [app] in E. auto.
 Qed.
+
+(* ---------------------------------------------------------------- a per-session invariant over all histories *)
+
+Section SessInv.
+  Variable P : sess -> Prop.
+  Hypothesis P_empty : forall lid rid node, P (empty_sess lid rid node).
+  Hypothesis P_cats : forall e o names c r, run_categories e o names c = Some r -> P (c_s c) -> P (c_s (fst r)).
+  Hypothesis P_emit : forall extra d s rs, P s -> P (set_urrs (fst (emit extra d (s_urrs s) rs)) s).
+  Hypothesis P_push : forall pdrid p s, P s -> P (push pdrid p s).
+
+  Definition slotsP (sl : list (option sess)) : Prop := forall i s, nth_error sl i = Some (Some s) -> P s.
+  Definition WP (w : world) : Prop := slotsP (w_slots w).
+
+  Lemma slotsP_set_nth sl i x : slotsP sl -> (forall s, x = Some s -> P s) -> slotsP (set_nth i x sl).
+  Proof.
+    intros H Hx j s Hj. rewrite nth_set_nth in Hj. destruct (Nat.eqb i j).
+    - destruct (i <? length sl)%nat; [|discriminate]. inversion Hj; subst. apply Hx. reflexivity.
+    - eapply H; eauto.
+  Qed.
+
+  Lemma slotsP_snoc sl x : slotsP sl -> (forall s, x = Some s -> P s) -> slotsP (sl ++ [x]).
+  Proof.
+    intros H Hx j s Hj. destruct (Nat.lt_ge_cases j (length sl)) as [Hlt|Hge].
+    - rewrite nth_error_app1 in Hj by exact Hlt. eapply H; eauto.
+    - rewrite nth_error_app2 in Hj by exact Hge. destruct (j - length sl)%nat as [|k]; cbn in Hj.
+      + inversion Hj; subst. apply Hx. reflexivity.
+      + destruct k; discriminate.
+  Qed.
+
+  Lemma lookup_P w seid s : WP w -> lookup (w_slots w) seid = Ok (Found s) -> P s.
+  Proof.
+    intros HW H. destruct (lookup_spec (w_slots w) seid) as [[s' [H' [_ Hn]]]|[H' _]]; rewrite H' in H; [|discriminate].
+    inversion H; subst. eapply HW; eauto.
+  Qed.
+
+  Lemma put_slot_P w s w' : WP w -> P s -> put_slot w s = Ok w' -> WP w'.
+  Proof.
+    intros HW Hs. unfold put_slot. destruct (slot_set (w_slots w) (N.to_nat (s_lid s - 1)) (Some s)) as [sl|f] eqn:E; [|discriminate].
+    intros H. inversion H; subst. apply slot_set_Ok in E. destruct E as [_ ->]. unfold WP. cbn [set_slots_free w_slots].
+    apply slotsP_set_nth; [exact HW|]. intros s0 E0. inversion E0; subst. exact Hs.
+  Qed.
+
+  Lemma new_sess_P w rid node w1 s : WP w -> new_sess w rid node = Ok (w1, s) -> WP w1 /\ P s.
+  Proof.
+    intros HW. unfold new_sess. destruct (rev (w_free w)) as [|last rest].
+    - intros H. inversion H; subst. split; [|apply P_empty]. unfold WP. cbn [set_slots_free w_slots].
+      apply slotsP_snoc; [exact HW|]. intros s0 E0. inversion E0; subst. apply P_empty.
+    - destruct (slot_set (w_slots w) (N.to_nat (last - 1)) (Some (empty_sess last rid node))) as [sl|f] eqn:E; [|discriminate].
+      intros H. inversion H; subst. split; [|apply P_empty]. apply slot_set_Ok in E. destruct E as [_ ->].
+      unfold WP. cbn [set_slots_free w_slots]. apply slotsP_set_nth; [exact HW|]. intros s0 E0. inversion E0; subst. apply P_empty.
+  Qed.
+
+  Lemma delete_sess_P e w ref lid w' r : WP w -> delete_sess e w ref lid = Ok (w', r) -> WP w'.
+  Proof.
+    intros HW. unfold delete_sess.
+    destruct (nth_error (w_heap w) ref) as [n|]; [|intros H; inversion H; subst; exact HW].
+    destruct (negb (memN lid (n_sess n))); [intros H; inversion H; subst; exact HW|].
+    destruct (lid =? 0); [intros H; inversion H; subst; exact HW|].
+    cbn [set_heap w_slots w_dp w_free].
+    destruct (N.of_nat (length (w_slots w)) <? lid); [intros H; inversion H; subst; exact HW|].
+    destruct (slot_get (w_slots w) (N.to_nat (lid - 1))) as [[s|]|f]; [|intros H; inversion H; subst; exact HW|discriminate].
+    destruct (sess_close e (mkCtx s (w_dp w) [])) as [[c rs]|]; [|intros H; inversion H; subst; exact HW].
+    destruct (slot_set (w_slots w) (N.to_nat (lid - 1)) None) as [sl|f] eqn:E; [|discriminate].
+    intros H. inversion H; subst. apply slot_set_Ok in E. destruct E as [_ ->].
+    unfold WP. cbn [set_dp set_slots_free w_slots]. apply slotsP_set_nth; [exact HW|]. intros s0 E0. discriminate.
+  Qed.
+
+  Lemma reset_loop_P e ref ids : forall w acc w' o, WP w -> reset_loop e w ref ids acc = Ok (w', o) -> WP w'.
+  Proof.
+    induction ids as [|lid ids IH]; intros w acc w' o HW; cbn [reset_loop].
+    - intros H. inversion H; subst. exact HW.
+    - destruct (delete_sess e w ref lid) as [[w1 r]|f] eqn:Ed; [|discriminate].
+      apply delete_sess_P in Ed; [|exact HW]. destruct r as [[[o1 s1] rs]|]; apply IH; exact Ed.
+  Qed.
+
+  Lemma node_reset_P e w ref order w' o : WP w -> node_reset e w ref order = Ok (w', o) -> WP w'.
+  Proof.
+    intros HW. unfold node_reset. destruct (nth_error (w_heap w) ref) as [n|]; [|intros H; inversion H; subst; exact HW].
+    match goal with |- context [reset_loop e w ref ?l []] => destruct (reset_loop e w ref l []) as [[w1 o1]|f] eqn:El end; [|discriminate].
+    intros H. inversion H; subst. apply reset_loop_P in El; [|exact HW]. exact El.
+  Qed.
+
+  Lemma send_rsp_slots w peer seq p : w_slots (fst (send_rsp w peer seq p)) = w_slots w.
+  Proof. unfold send_rsp. destruct (klookup (peer, seq) (w_rx w)); reflexivity. Qed.
+
+  Lemma handle_assoc_P w peer seq nid order e w' o : WP w -> handle_assoc w peer seq nid order e = Ok (w', o) -> WP w'.
+  Proof.
+    intros HW. unfold handle_assoc. destruct nid as [| |id]; try (intros H; inversion H; subst; exact HW).
+    destruct (alookup id (w_rnodes w)) as [ref|].
+    - destruct (node_reset e w ref order) as [[w1 o1]|f] eqn:En; [|discriminate].
+      apply node_reset_P in En; [|exact HW].
+      match goal with |- context [send_rsp ?wx peer seq ?px] =>
+        pose proof (send_rsp_slots wx peer seq px) as Hs; destruct (send_rsp wx peer seq px) as [w3 o3] end.
+      intros H. inversion H; subst. unfold WP. cbn [fst] in Hs. rewrite Hs. exact En.
+    - match goal with |- context [send_rsp ?wx peer seq ?px] =>
+        pose proof (send_rsp_slots wx peer seq px) as Hs; destruct (send_rsp wx peer seq px) as [w3 o3] end.
+      intros H. inversion H; subst. unfold WP. cbn [fst] in Hs. rewrite Hs. exact HW.
+  Qed.
+
+  Lemma handle_est_P w peer seq nid fseid o e w' out : WP w -> handle_est w peer seq nid fseid o e = Ok (w', out) -> WP w'.
+  Proof.
+    intros HW. unfold handle_est. destruct nid as [| |id]; try (intros H; inversion H; subst; exact HW).
+    destruct (alookup id (w_rnodes w)) as [ref|]; [|intros H; inversion H; subst; exact HW].
+    destruct fseid as [| |rid]; try (intros H; inversion H; subst; exact HW).
+    destruct (new_sess w rid ref) as [[w1 s]|f] eqn:En; [|discriminate].
+    destruct (new_sess_P _ _ _ _ _ HW En) as [HW1 Hs].
+    match goal with |- context [run_categories e o est_order ?cx] =>
+      destruct (run_categories e o est_order cx) as [[c rs]|] eqn:Ec end; [|intros H; inversion H; subst; exact HW].
+    apply P_cats in Ec; [|exact Hs]. cbn [fst] in Ec.
+    match goal with |- context [put_slot ?wx (c_s c)] => destruct (put_slot wx (c_s c)) as [w3|f] eqn:Ep end; [|discriminate].
+    apply put_slot_P in Ep; [|exact HW1|exact Ec].
+    match goal with |- context [send_rsp ?wx peer seq ?px] =>
+      pose proof (send_rsp_slots wx peer seq px) as Hsl; destruct (send_rsp wx peer seq px) as [w4 o4] end.
+    intros H. inversion H; subst. unfold WP. cbn [fst] in Hsl. rewrite Hsl. exact Ep.
+  Qed.
+
+  Lemma update_node_id_slots w ref newid : w_slots (update_node_id w ref newid) = w_slots w.
+  Proof. unfold update_node_id. destruct (nth_error (w_heap w) ref); reflexivity. Qed.
+
+  Lemma handle_mod_P w peer seq seid nid o e w' out : WP w -> handle_mod w peer seq seid nid o e = Ok (w', out) -> WP w'.
+  Proof.
+    intros HW. unfold handle_mod. destruct (lookup (w_slots w) seid) as [[s|]|f] eqn:El; [| |discriminate].
+    - pose proof (lookup_P _ _ _ HW El) as Hs.
+      destruct nid as [| |id]; [|intros H; inversion H; subst; exact HW|].
+      + destruct (run_categories e o mod_order (mkCtx s (w_dp w) [])) as [[c rs]|] eqn:Ec; [|intros H; inversion H; subst; exact HW].
+        apply P_cats in Ec; [|exact Hs]. cbn [fst] in Ec.
+        pose proof (P_emit 0 true (c_s c) rs Ec) as He.
+        destruct (emit 0 true (s_urrs (c_s c)) rs) as [urrs ies]. cbn [fst] in He.
+        match goal with |- context [put_slot ?wx ?sx] => destruct (put_slot wx sx) as [w2|f] eqn:Ep end; [|discriminate].
+        apply put_slot_P in Ep; [|exact HW|exact He].
+        match goal with |- context [send_rsp ?wx peer seq ?px] =>
+          pose proof (send_rsp_slots wx peer seq px) as Hsl; destruct (send_rsp wx peer seq px) as [w3 o3] end.
+        intros H. inversion H; subst. unfold WP. cbn [fst] in Hsl. rewrite Hsl. exact Ep.
+      + assert (HW1 : WP (update_node_id w (s_node s) id)) by (unfold WP; rewrite update_node_id_slots; exact HW).
+        match goal with |- context [run_categories e o mod_order ?cx] =>
+          destruct (run_categories e o mod_order cx) as [[c rs]|] eqn:Ec end; [|intros H; inversion H; subst; exact HW].
+        apply P_cats in Ec; [|exact Hs]. cbn [fst] in Ec.
+        pose proof (P_emit 0 true (c_s c) rs Ec) as He.
+        destruct (emit 0 true (s_urrs (c_s c)) rs) as [urrs ies]. cbn [fst] in He.
+        match goal with |- context [put_slot ?wx ?sx] => destruct (put_slot wx sx) as [w2|f] eqn:Ep end; [|discriminate].
+        apply put_slot_P in Ep; [|exact HW1|exact He].
+        match goal with |- context [send_rsp ?wx peer seq ?px] =>
+          pose proof (send_rsp_slots wx peer seq px) as Hsl; destruct (send_rsp wx peer seq px) as [w3 o3] end.
+        intros H. inversion H; subst. unfold WP. cbn [fst] in Hsl. rewrite Hsl. exact Ep.
+    - match goal with |- context [send_rsp ?wx peer seq ?px] =>
+        pose proof (send_rsp_slots wx peer seq px) as Hsl; destruct (send_rsp wx peer seq px) as [w3 o3] end.
+      intros H. inversion H; subst. unfold WP. cbn [fst] in Hsl. rewrite Hsl. exact HW.
+  Qed.
+
+  Lemma handle_del_P w peer seq seid e w' out : WP w -> handle_del w peer seq seid e = Ok (w', out) -> WP w'.
+  Proof.
+    intros HW. unfold handle_del. destruct (lookup (w_slots w) seid) as [[s|]|f]; [| |discriminate].
+    - destruct (delete_sess e w (s_node s) seid) as [[w1 r]|f] eqn:Ed; [|discriminate].
+      apply delete_sess_P in Ed; [|exact HW].
+      destruct r as [[[o1 s1] rs]|].
+      + destruct (emit USAR_TRIG_TERMR true (s_urrs s1) rs) as [u ies].
+        match goal with |- context [send_rsp ?wx peer seq ?px] =>
+          pose proof (send_rsp_slots wx peer seq px) as Hsl; destruct (send_rsp wx peer seq px) as [w3 o3] end.
+        intros H. inversion H; subst. unfold WP. cbn [fst] in Hsl. rewrite Hsl. exact Ed.
+      + match goal with |- context [send_rsp ?wx peer seq ?px] =>
+          pose proof (send_rsp_slots wx peer seq px) as Hsl; destruct (send_rsp wx peer seq px) as [w3 o3] end.
+        intros H. inversion H; subst. unfold WP. cbn [fst] in Hsl. rewrite Hsl. exact Ed.
+    - match goal with |- context [send_rsp ?wx peer seq ?px] =>
+        pose proof (send_rsp_slots wx peer seq px) as Hsl; destruct (send_rsp wx peer seq px) as [w3 o3] end.
+      intros H. inversion H; subst. unfold WP. cbn [fst] in Hsl. rewrite Hsl. exact HW.
+  Qed.
+
+  Lemma recv_request_P w peer seq m e w' out : WP w -> recv_request w peer seq m e = Ok (w', out) -> WP w'.
+  Proof.
+    intros HW. unfold recv_request.
+    destruct (klookup (peer, seq) (w_rx w)) as [[p|]|]; try (intros H; inversion H; subst; exact HW).
+    assert (HW0 : WP (set_rx (kset (peer, seq) None (w_rx w)) w)) by exact HW.
+    destruct m; try (intros H; inversion H; subst; exact HW0).
+    - match goal with |- context [send_rsp ?wx peer seq ?px] =>
+        pose proof (send_rsp_slots wx peer seq px) as Hsl; destruct (send_rsp wx peer seq px) as [w3 o3] end.
+      intros H. inversion H; subst. unfold WP. cbn [fst] in Hsl. rewrite Hsl. exact HW.
+    - apply handle_assoc_P. exact HW0.
+    - apply handle_est_P. exact HW0.
+    - apply handle_mod_P. exact HW0.
+    - apply handle_del_P. exact HW0.
+  Qed.
+
+  Lemma recv_response_P w peer seq m e w' out : WP w -> recv_response w peer seq m e = Ok (w', out) -> WP w'.
+  Proof.
+    intros HW. unfold recv_response. destruct (klookup (peer, seq) (w_tx w)) as [t|]; [|intros H; inversion H; subst; exact HW].
+    assert (HW1 : WP (set_tx (kdel (peer, seq) (w_tx w)) (w_txseq w) w)) by exact HW.
+    destruct m; try (intros H; inversion H; subst; exact HW1).
+    unfold handle_report_rsp. destruct (hdr =? 0).
+    - match goal with |- context [remote_sess ?h ?sl ?a ?b] => destruct (remote_sess h sl a b) as [s|] end;
+        [|intros H; inversion H; subst; exact HW1].
+      match goal with |- context [delete_sess e ?wx ?a ?b] => destruct (delete_sess e wx a b) as [[w2 r]|f] eqn:Ed end; [|discriminate].
+      apply delete_sess_P in Ed; [|exact HW1].
+      destruct r as [[[o1 s1] rs]|]; intros H; inversion H; subst; exact Ed.
+    - match goal with |- context [lookup ?sl hdr] => destruct (lookup sl hdr) end; [|discriminate].
+      intros H. inversion H; subst. exact HW1.
+  Qed.
+
+  Lemma serve_items_P items : forall w s dst usars w1 s1 o1 u,
+    serve_items w s dst items usars = (w1, s1, o1, u) -> P s -> P s1 /\ w_slots w1 = w_slots w.
+  Proof.
+    induction items as [|it items IH]; intros w s dst usars w1 s1 o1 u; cbn [serve_items].
+    - intros H Hs. inversion H; subst. auto.
+    - destruct it as [pdrid action p|r]; [|apply IH].
+      match goal with |- context [serve_items _ ?sy dst items usars] => set (sx := sy) end.
+      intros H Hs. assert (Hsx : P sx) by (unfold sx; destruct (_ && _); [apply P_push|]; exact Hs).
+      destruct (negb (flag_of APPLY_ACT_NOCP action)); [inversion H; subst; auto|].
+      unfold send_req in H.
+      match type of H with context [serve_items ?wa sx dst items usars] =>
+        destruct (serve_items wa sx dst items usars) as [[[w2 s2] o2] u2] eqn:E2 end.
+      inversion H; subst. destruct (IH _ _ _ _ _ _ _ _ E2 Hsx) as [A B]. split; [exact A|]. rewrite B. reflexivity.
+  Qed.
+
+  Lemma serve_report_P w seid items w' out : WP w -> serve_report w seid items = Ok (w', out) -> WP w'.
+  Proof.
+    intros HW. unfold serve_report. destruct (lookup (w_slots w) seid) as [[s|]|f] eqn:El; [| |discriminate].
+    - pose proof (lookup_P _ _ _ HW El) as Hs.
+      destruct (nth_error (w_heap w) (s_node s)) as [n|]; [|discriminate].
+      destruct (serve_items w s (n_id n) items []) as [[[w1 s1] o1] u] eqn:Es.
+      destruct (serve_items_P _ _ _ _ _ _ _ _ _ Es Hs) as [Hs1 Hsl].
+      assert (HW1 : WP w1) by (unfold WP; rewrite Hsl; exact HW).
+      destruct u as [[|r rs]|].
+      + destruct (put_slot w1 s1) as [w3|f] eqn:Ep; [|discriminate]. apply put_slot_P in Ep; [|exact HW1|exact Hs1].
+        intros H. inversion H; subst. exact Ep.
+      + pose proof (P_emit 0 false s1 (r :: rs) Hs1) as He.
+        destruct (emit 0 false (s_urrs s1) (r :: rs)) as [urrs ies]. cbn [fst] in He.
+        unfold send_req.
+        match goal with |- context [put_slot ?wx ?sx] => destruct (put_slot wx sx) as [w3|f] eqn:Ep end; [|discriminate].
+        apply put_slot_P in Ep; [|exact HW1|exact He]. intros H. inversion H; subst. exact Ep.
+      + destruct (put_slot w1 s1) as [w3|f] eqn:Ep; [|discriminate]. apply put_slot_P in Ep; [|exact HW1|exact Hs1].
+        intros H. inversion H; subst. exact Ep.
+    - intros H. inversion H; subst. exact HW.
+  Qed.
+
+  Theorem step_sess_inv w ev w' o : WP w -> step w ev = Ok (w', o) -> WP w'.
+  Proof.
+    intros HW. destruct ev as [peer seq m e|seid items e|peer seq|peer seq]; cbn [step].
+    - destruct (is_request m); [apply recv_request_P | apply recv_response_P]; exact HW.
+    - apply serve_report_P. exact HW.
+    - unfold timeout_tx. destruct (klookup (peer, seq) (w_tx w)) as [t|]; [|intros H; inversion H; subst; exact HW].
+      destruct (tx_count t <? w_maxretrans w); intros H; inversion H; subst; exact HW.
+    - intros H. inversion H; subst. exact HW.
+  Qed.
+
+  Theorem reachable_sess_inv w : reachable w -> forall lid s, live w lid s -> P s.
+  Proof.
+    intros Hr. assert (HW : WP w).
+    { induction Hr as [q m|w ev w' o Hr IH E]; [intros i s H; destruct i; discriminate|]. eapply step_sess_inv; eauto. }
+    intros lid s [_ H]. eapply HW; eauto.
+  Qed.
+End SessInv.
+
+(* ---------------------------------------------------------------- C13 (c), (d) *)
+
+Theorem close_drops_queues e c c' rs : sess_close e c = Some (c', rs) -> s_q (c_s c') = [].
+Proof. intros H. exact (proj1 (sess_close_kept e c c' rs H)). Qed.
+
+Definition QOK (w : world) : Prop :=
+  forall lid s, live w lid s -> forall pdr q, alookup pdr (s_q s) = Some q -> N.of_nat (length q) <= BUFFQ_LEN.
+
+Lemma QOK_WP w : QOK w <-> WP q_bounded w.
+Proof.
+  split.
+  - intros H i s Hi pdr q Hq. apply (H (N.of_nat i + 1) s) with (pdr := pdr); [|exact Hq].
+    split; [lia|]. replace (N.to_nat (N.of_nat i + 1 - 1)) with i by lia. exact Hi.
+  - intros H lid s [_ Hl]. eapply H; eauto.
+Qed.
+
+Lemma q_bounded_cats e o names c r : run_categories e o names c = Some r -> q_bounded (c_s c) -> q_bounded (c_s (fst r)).
+Proof. intros H Hb. unfold q_bounded. rewrite (run_categories_q_kept _ _ _ _ _ H). exact Hb. Qed.
+
+(* every step keeps every queue of every live session within BUFFQ_LEN (no WInv needed) *)
+Theorem step_preserves_QOK w ev w' o : QOK w -> step w ev = Ok (w', o) -> QOK w'.
+Proof.
+  rewrite !QOK_WP. apply step_sess_inv.
+  - intros lid rid node pdr q H. discriminate.
+  - apply q_bounded_cats.
+  - intros extra d s rs H. exact H.
+  - intros pdrid p s. apply push_bounded.
+Qed.
+
+Theorem reachable_QOK w : reachable w -> QOK w.
+Proof.
+  intros Hr lid s. revert lid s. apply (reachable_sess_inv q_bounded); try assumption.
+  - intros lid rid node pdr q H. discriminate.
+  - apply q_bounded_cats.
+  - intros extra d s rs H. exact H.
+  - intros pdrid p s. apply push_bounded.
+Qed.
+
+(* the same machinery: UR-SEQN counters are uint32 values in every reachable state *)
+Theorem seq_bounded_reachable w lid s u inf :
+  reachable w -> live w lid s -> alookup u (s_urrs s) = Some inf -> ui_seqn inf < M32.
+Proof.
+  intros Hr HL. revert u inf. change (seq_bounded (s_urrs s)). revert lid s HL.
+  apply (reachable_sess_inv (fun s => seq_bounded (s_urrs s))); try assumption.
+  - intros lid rid node u inf H. discriminate.
+  - intros e o names c r H. apply (skept_bounded (created_by o)). apply (run_categories_kept _ _ _ _ _ H).
+  - intros extra d s rs H. cbn [set_urrs s_urrs]. apply emit_bounded. exact H.
+  - intros pdrid p s H. destruct (push_fifo_cap pdrid p s) as [_ [_ [_ [_ [_ [_ [_ [_ [_ E]]]]]]]]]. rewrite E. exact H.
+Qed.
